@@ -83,7 +83,7 @@ func (k *knownFile) match(prop string, v *symx.Violation) *knownFinding {
 		}
 		ok := true
 		for fk, fv := range f.Facts {
-			if v.Facts[fk] != fv {
+			if m, _ := filepath.Match(fv, v.Facts[fk]); !m && v.Facts[fk] != fv {
 				ok = false
 			}
 		}
@@ -188,6 +188,7 @@ func cmdRun(args []string) int {
 	violations := 0
 	exit := 0
 	replayDir := filepath.Join(verifDir, "replays", id)
+	knownPrinted := map[string]bool{}
 
 	for _, ob := range prop.Obligations {
 		if *only != "" && ob.Entry != *only {
@@ -283,7 +284,10 @@ func cmdRun(args []string) int {
 				continue
 			}
 			if kf := known.match(id, v); kf != nil {
-				fmt.Printf("KNOWN-FINDING: property=%s %s — %s\n", id, v.ID, kf.What)
+				if !knownPrinted[kf.What] {
+					knownPrinted[kf.What] = true
+					fmt.Printf("KNOWN-FINDING: property=%s %s — %s\n", id, v.ID, kf.What)
+				}
 				ev.Coverage.KnownFindings = append(ev.Coverage.KnownFindings, v.ID+" "+factsString(v.Facts))
 				continue
 			}
